@@ -15,14 +15,13 @@ Ev == Trace[l]
 AsSet(s) == {s[i] : i \in 1..Len(s)}
 
 Explained ==
-  LET c  == Ev.code
-      sd == ScanData(c)          \* evaluated once per event
-  IN
+  LET c == Ev.code IN
   IF Ev.route = "bitmap"
-    THEN /\ AsSet(Ev.valid) = sd
-         /\ LET v == BitmapAlgo(c) IN {p \in v.s : p < Len(c)} = sd /\ v.top < AllocBytes(c)
+    THEN LET sd == ScanData(c)  v == BitmapAlgo(c) IN
+         /\ AsSet(Ev.valid) = sd
+         /\ {p \in v.s : p < Len(c)} = sd /\ v.top < AllocBytes(c)
     ELSE /\ Ev.route \in {"frame-nohash", "frame-cold", "frame-warm", "call-cold", "call-warm", "create"}
-         /\ AsSet(Ev.valid) = {p \in 0..(Len(c) - 1) : c[p + 1] = JUMPDEST /\ p \notin sd}
+         /\ AsSet(Ev.valid) = ValidSet(c)
 
 TraceInit == codes = {} /\ cache = << >> /\ frame = NoFrame /\ l = 1
 TraceNext == l <= Len(Trace) /\ Explained /\ l' = l + 1 /\ UNCHANGED vars
